@@ -569,6 +569,11 @@ def term_getitem(it, base, idx, env, node):
         r = read_store_chain(base, to_term(idx))
         if r is not None:
             return r
+    if f in ("outer", "ext_numpy_outer") and len(base.args) == 2 and isinstance(to_term(idx), sp.Tuple) and len(to_term(idx).args) == 2 \
+            and all(fname(x) != "slc" and x not in (NONE_T, T.ELLIPSIS_T) for x in to_term(idx).args):
+        # np.outer(x, y)[i, j] == x[i] * y[j]
+        i0, i1 = to_term(idx).args
+        return op("item", base.args[0], i0) * op("item", base.args[1], i1)
     if isinstance(base, (sp.Mul, sp.Add)) and isinstance(to_term(idx), sp.Tuple) and any(_is_broadcast_axis(a) for a in base.args) \
             and all(is_scalar_term(a) or _is_broadcast_axis(a) for a in base.args):
         # outer products written with inserted axes: element (i, j) of x[:, None] * y[None, :] is x[i] * y[j]
